@@ -134,15 +134,15 @@ Qed.
     for the empty id; those roots are refused by validate_object_root, not made safe by the layout. *)
 Theorem hashed_layouts_safe_lemma : forall (c : Layout.cfg) id dg p,
   (c_ext c = E0003 /\ c_ts c <> 0 \/ c_ext c = E0004) ->
-  Layout.cfg_ok c = true -> inputs_ok c id dg = true -> known_c11 c id = false ->
+  Layout.cfg_ok c = true -> inputs_ok c id dg = true ->
   Layout.map c id dg = Ok p ->
   rel_safe p = true /\ first_is_extensions p = false /\
   forall R, below R (main_root R p) = true.
 Proof.
-  intros c id dg p He0 Hok Hin Hk Hm.
+  intros c id dg p He0 Hok Hin Hm.
   assert (K1 : c_ext c = E0003 -> c_ts c <> 0) by (intro E3; destruct He0 as [[_ T]|E4]; [exact T | congruence]).
   assert (He : c_ext c = E0003 \/ c_ext c = E0004) by (destruct He0 as [[E3 _]|E4]; [left | right]; assumption).
-  pose proof (map_correct c id dg Hok Hin Hk) as MC. rewrite Hm in MC. cbn [refusal] in MC.
+  pose proof (map_is_spec c id dg Hok Hin) as MC. rewrite Hm in MC. cbn [refusal] in MC.
   destruct (inputs_ok_inv _ _ _ Hin) as (_ & _ & W3).
   destruct (cfg_ok_hashed c He Hok) as [Hz Hp].
   pose proof W3 as W3'. unfold digest_ok in W3'. apply andb_true_iff in W3' as [Hl HX].
